@@ -831,7 +831,11 @@ impl<'a> LiveEvents<'a> {
                     // Found the start of the next document. The skipped events bypassed the
                     // budget enforcer, so tell it explicitly that a new document begins.
                     if let Some(budget) = self.budget.as_mut() {
-                        budget.begin_document();
+                        // A breach here (only possible with `max_events = 0`) ends the
+                        // recovery like a syntax error met while skipping.
+                        if budget.begin_document_at(&raw).is_err() {
+                            return false;
+                        }
                     }
                     self.reset_document_state();
                     self.produced_any_in_doc = false;
